@@ -40,3 +40,6 @@ func VerifParts(d Dcp) (stream.Stream, stream.VBucketDiscovery, EventBus.Bus, ch
 	x := d.(*dcp)
 	return x.stream, x.vBucketDiscovery, x.bus, x.stopCh
 }
+
+// VerifNewDcpConfig runs the unexported newDcpConfig (config file -> config.Dcp with ${VAR} placeholders resolved).
+func VerifNewDcpConfig(path string) (config.Dcp, error) { return newDcpConfig(path) }
